@@ -85,3 +85,92 @@ Section AnswerCache.
   Qed.
 End AnswerCache.
 
+
+(* A negative memo in front of the table (FindType since d9e46be): a lookup first searches a place of its own -- the
+   dependencies of the package being checked -- and only when that has nothing asks the second stage. A per-run memo keeps what
+   the first stage said: its answer (when `keep` says so: answers that came with an error are not kept), or the MARKER "nothing
+   there" (a nil entry). A marker is never served as an answer: it only spares the search, the second stage is asked as if the
+   first one had just said "nothing".
+
+   memo_history_independent: from any sound memo every lookup of every sequence answers what the two stages answer without a
+   memo. marker_served_refuted: a reader that takes the marker for an answer is wrong on the second lookup. *)
+Section NegativeMemo.
+  Variables key ans : Type.
+  Variable key_eqb : key -> key -> bool.
+  Hypothesis key_eqb_spec : forall a b, reflect (a = b) (key_eqb a b).
+  Variable first : key -> option ans.
+  Variable second : key -> ans.
+  Variable keep : ans -> bool.
+
+  Definition resolve2 (k : key) : ans := match first k with Some a => a | None => second k end.
+
+  Definition memo := list (key * option ans).
+
+  Fixpoint mlookup (k : key) (m : memo) : option (option ans) :=
+    match m with
+    | [] => None
+    | (k', o) :: r => if key_eqb k k' then Some o else mlookup k r
+    end.
+
+  (* marker_is_answer = false: the engine's reader (`known && typ != nil`); true: a reader that returns what the memo holds *)
+  Definition ask2 (marker_is_answer : option ans) (m : memo) (k : key) : ans * memo :=
+    match mlookup k m with
+    | Some (Some a) => (a, m)
+    | Some None => match marker_is_answer with Some junk => (junk, m) | None => (second k, m) end
+    | None => match first k with
+              | Some a => (a, if keep a then (k, Some a) :: m else m)
+              | None => (second k, (k, None) :: m)
+              end
+    end.
+
+  Fixpoint asks2 (mia : option ans) (m : memo) (ks : list key) : list ans * memo :=
+    match ks with
+    | [] => ([], m)
+    | k :: r => let '(a, m1) := ask2 mia m k in
+                let '(rest, m2) := asks2 mia m1 r in (a :: rest, m2)
+    end.
+
+  Definition msound (m : memo) : Prop := forall k o, mlookup k m = Some o -> first k = o.
+
+  Lemma msound_nil : msound [].
+  Proof. intros k o H. discriminate. Qed.
+
+  Lemma msound_cons m k o : msound m -> first k = o -> msound ((k, o) :: m).
+  Proof.
+    intros S F k' o' H. cbn in H.
+    destruct (key_eqb_spec k' k) as [->|N]; [inversion H; subst; reflexivity | apply S; exact H].
+  Qed.
+
+  Lemma ask2_sound m k : msound m ->
+    fst (ask2 None m k) = resolve2 k /\ msound (snd (ask2 None m k)).
+  Proof.
+    intros S. unfold ask2, resolve2. destruct (mlookup k m) as [[a|]|] eqn:L.
+    - rewrite (S _ _ L). split; [reflexivity | exact S].
+    - rewrite (S _ _ L). split; [reflexivity | exact S].
+    - destruct (first k) as [a|] eqn:F; cbn [fst snd].
+      + split; [reflexivity|]. destruct (keep a); [apply msound_cons; assumption | exact S].
+      + split; [reflexivity | apply msound_cons; assumption].
+  Qed.
+
+  Theorem memo_history_independent : forall ks m, msound m ->
+    fst (asks2 None m ks) = map resolve2 ks /\ msound (snd (asks2 None m ks)).
+  Proof.
+    induction ks as [|k r IH]; intros m S; cbn [asks2 map].
+    - split; [reflexivity | exact S].
+    - destruct (ask2_sound m k S) as [A S1].
+      destruct (ask2 None m k) as [a m1] eqn:E. cbn [fst snd] in A, S1.
+      destruct (IH m1 S1) as [B S2].
+      destruct (asks2 None m1 r) as [rest m2] eqn:E2. cbn [fst snd] in *.
+      split; [congruence | exact S2].
+  Qed.
+
+  Corollary memo_fresh_run : forall ks, fst (asks2 None [] ks) = map resolve2 ks.
+  Proof. intros ks. apply memo_history_independent. apply msound_nil. Qed.
+
+  Theorem marker_served_refuted : forall k junk, first k = None ->
+    fst (asks2 (Some junk) [] [k; k]) = [second k; junk].
+  Proof.
+    intros k junk F. cbn [asks2]. unfold ask2 at 1. cbn [mlookup]. rewrite F.
+    unfold ask2. cbn [mlookup]. destruct (key_eqb_spec k k) as [_|N]; [reflexivity | congruence].
+  Qed.
+End NegativeMemo.
